@@ -175,6 +175,22 @@ def compile_kernel(spec, th, d):
     raise ValueError(spec)
 
 
+def mean_abs_vector(spec, th, X, xbar):
+    """sum of the absolute values of the terms of m(x) (rounding scale of the computed mean)"""
+    d = len(xbar)
+    out = []
+    for x in X:
+        v = abs(th[0])
+        if spec in ("L", "Q"):
+            for i in range(d):
+                v += abs(th[1 + i]) * (abs(x[i]) + abs(xbar[i]))  # x - xbar carries the rounding of xbar: eps |x|
+        if spec == "Q":
+            for i in range(d):
+                v += abs(th[1 + d + i]) * ((x[i] - xbar[i]) ** 2 + 2 * abs(x[i] - xbar[i]) * (abs(x[i]) + abs(xbar[i])))
+        out.append(v)
+    return out
+
+
 def kernel_matrices(spec, th, X):
     """X: list of points (lists of mpf). -> (smooth n x n, delta diagonal n)"""
     n = len(X)
@@ -345,6 +361,14 @@ class LinGauss:
             F.subs = subs
         return F
 
+    def residual_rounding_scale(self, theta):
+        """|y_i| + sum_j |B_ij| (sum of |terms| of m_j): the residual y - B m is formed in float64 to eps times this"""
+        th = mvec(theta)
+        ma = mean_abs_vector(self.mspec, th[: self.pm], self.X, self.xbar)
+        if self.B is not None:
+            ma = [mp.fsum(abs(b) * v for b, v in zip(row, ma)) for row in self.B]
+        return np.array([float(abs(a) + b) for a, b in zip(self.y, ma)])
+
     def data_mean(self, thm):
         m = mean_vector(self.mspec, list(thm), self.X, self.xbar)
         return m if self.B is None else matvec(self.B, m)
@@ -435,7 +459,7 @@ CE = 1.0e3
 class Pert:
     """numpy side of one evaluation point: norms and the first-order sensitivities."""
 
-    def __init__(self, C, r, alpha):
+    def __init__(self, C, r, alpha, rabs=None):
         self.C = np.asarray(C, dtype=float)
         self.n = self.C.shape[0]
         self.r = np.asarray(r, dtype=float)
@@ -453,6 +477,10 @@ class Pert:
             self.na = float(np.linalg.norm(self.alpha))
             self.ci = np.linalg.norm(self.Ci, axis=0)  # ||C^-1 e_i||
             self.var = 1.0 / np.diag(self.Ci)
+            # rounding of the residual itself: |delta r_i| <= CE eps rabs_i, hence |delta alpha| <= |C^-1| dr
+            self.dr = CE * EPS * (np.abs(self.r) if rabs is None else np.asarray(rabs, dtype=float))
+            self.da_r = np.abs(self.Ci) @ self.dr
+            self.kEa = self.kE + (float(np.linalg.norm(self.da_r)) / self.na if self.na > 0 else 0.0)
             # magnitude of the scores (sum of the absolute values of their terms)
             self.scale_lml = 0.5 * abs(float(self.r @ self.alpha)) + 0.5 * float(np.abs(np.log(w)).sum()) + self.n
             self.scale_loo = float((0.5 * np.abs(np.log(self.var)) + 0.5 * self.alpha**2 * self.var).sum()) + self.n
@@ -467,7 +495,7 @@ class Pert:
 
     # value of  -1/2 r'C^-1 r - 1/2 log det C
     def tol_lml(self, value):
-        return self.normE * (0.5 * self.na**2 + 0.5 * self.n * self.normCi) + CE * EPS * (abs(value) + 1.0)
+        return self.normE * (0.5 * self.na**2 + 0.5 * self.n * self.normCi) + float(np.abs(self.alpha) @ self.dr) + CE * EPS * (abs(value) + 1.0)
 
     # d/d theta_j of the above: 1/2 tr((aa' - C^-1) dC) + a'dmu
     def tol_grad_lml(self, dC, dmu, djit):
@@ -476,6 +504,7 @@ class Pert:
         t = self.normE * self.normCi * (self.na**2 + 0.5 * math.sqrt(self.n) * self.normCi) * nF
         t += CE * EPS * 0.5 * float((Q * np.abs(dC)).sum())
         t += self.kE * self.na * float(np.linalg.norm(dmu)) + CE * EPS * float((np.abs(self.alpha) * np.abs(dmu)).sum())
+        t += float(np.abs(self.Ci @ dmu) @ self.dr) + float(np.abs(self.Ci @ (dC @ self.alpha)) @ self.dr)
         # the stabiliser's own theta-dependence is not pinned: allow its whole contribution
         # (djit: derivative of the stabiliser's contribution to C - a diagonal, or a full matrix B diag B^T)
         if djit is not None:
@@ -485,7 +514,7 @@ class Pert:
 
     # leave-one-out
     def _loo_d(self):
-        da = self.ci * self.normE * self.na  # |delta alpha_i|
+        da = self.ci * self.normE * self.na + self.da_r  # |delta alpha_i|
         dv = self.var**2 * self.ci**2 * self.normE  # |delta var_i|
         return da, dv
 
@@ -510,7 +539,7 @@ class Pert:
         wb = ci**2 * n2  # |(C^-1 dC C^-1)_ii|
         c2 = 0.5 * v * (1 + v * a**2)
         dc2 = 0.5 * dv * (1 + 2 * v * a**2) + v**2 * a * da
-        t = (da * v * zb + a * dv * zb + a * v * 2 * self.kE * zb).sum()
+        t = (da * v * zb + a * dv * zb + a * v * (self.kE + self.kEa) * zb).sum()
         t += (dc2 * wb + c2 * 2 * self.kE * wb).sum()
         t += CE * EPS * float((a * v * zb + c2 * wb).sum())
         nm = float(np.linalg.norm(dmu))
